@@ -27,18 +27,124 @@ func loopsOf(fn *ssa.Function) map[*ssa.BasicBlock]*loopInfo {
 }
 
 func (ex *Exec) loopSpecFor(st *State, fr *Frame, li *loopInfo) *LoopSpec {
+	var ct *Contract
 	if len(st.frames) != 1 {
 		// a callee executed in place: its loops are specified by its own contract when that carries
 		// the attribute `inline` (body used at call sites, loop invariants from the contract)
-		if ct, ok := ex.Contracts[ex.FuncKey(fr.fn)]; ok && ct.hasAttr("inline") {
-			return ct.Loops[li.ordinal]
+		c, ok := ex.Contracts[ex.FuncKey(fr.fn)]
+		if !ok || !c.hasAttr("inline") {
+			return nil
 		}
+		ct = c
+	} else {
+		ct = ex.cur.contract
+	}
+	if ct == nil {
 		return nil
 	}
-	if ex.cur.contract == nil {
+	// Loop specifications are keyed by the ordinal of the loop in its function. A NEW loop in front of a
+	// specified one (one that can simply be unrolled, or that needs no invariant) would shift the ordinals:
+	// when the function has more loops than specifications and the specification that falls on a loop talks
+	// about a source local that does not exist yet at that loop, the loop is taken to be a new one without a
+	// specification, and the specifications move on to the following loops.
+	nLoops := len(loopsOf(fr.fn))
+	if fr.loopShift == nil {
+		fr.loopShift = map[int]bool{}
+	}
+	shift := 0
+	for o := range fr.loopShift {
+		if o < li.ordinal {
+			shift++
+		}
+	}
+	spec := ct.Loops[li.ordinal-shift]
+	if spec != nil && nLoops > len(ct.Loops) && !fr.loopShift[li.ordinal] && !ex.localsLive(spec, fr) {
+		fr.loopShift[li.ordinal] = true
 		return nil
 	}
-	return ex.cur.contract.Loops[li.ordinal]
+	if fr.loopShift[li.ordinal] {
+		return nil
+	}
+	return spec
+}
+
+// specOrdinal: the ordinal under which the loop's specification is written (obligation names follow it).
+func (ex *Exec) specOrdinal(fr *Frame, li *loopInfo) int {
+	shift := 0
+	for o := range fr.loopShift {
+		if o < li.ordinal {
+			shift++
+		}
+	}
+	return li.ordinal - shift
+}
+
+// localsLive: every source local of the function that the loop specification mentions has been declared
+// by the time this loop is reached.
+func (ex *Exec) localsLive(spec *LoopSpec, fr *Frame) bool {
+	names := map[string]bool{}
+	for _, inv := range spec.Invariants {
+		exprIdents(inv.E, names)
+	}
+	if spec.Decreases != nil {
+		exprIdents(spec.Decreases.E, names)
+	}
+	for _, b := range fr.fn.Blocks {
+		for _, in := range b.Instrs {
+			if a, ok := in.(*ssa.Alloc); ok && a.Comment != "" && names[a.Comment] {
+				if _, live := fr.regs[a]; live {
+					names[a.Comment] = false
+				}
+			}
+		}
+	}
+	declared := map[string]bool{}
+	for _, b := range fr.fn.Blocks {
+		for _, in := range b.Instrs {
+			if a, ok := in.(*ssa.Alloc); ok && a.Comment != "" {
+				declared[a.Comment] = true
+			}
+		}
+	}
+	for n, pending := range names {
+		if pending && declared[n] {
+			return false
+		}
+	}
+	return true
+}
+
+func exprIdents(e Expr, out map[string]bool) {
+	switch x := e.(type) {
+	case *EIdent:
+		out[x.Name] = true
+	case *EBin:
+		exprIdents(x.L, out)
+		exprIdents(x.R, out)
+	case *EUn:
+		exprIdents(x.X, out)
+	case *ECall:
+		for _, a := range x.Args {
+			exprIdents(a, out)
+		}
+	case *EIndex:
+		exprIdents(x.X, out)
+		exprIdents(x.I, out)
+	case *ESlice:
+		exprIdents(x.X, out)
+		exprIdents(x.Lo, out)
+		exprIdents(x.Hi, out)
+	case *EField:
+		exprIdents(x.X, out)
+	case *EQuant:
+		exprIdents(x.Body, out)
+	case *EOld:
+		exprIdents(x.X, out)
+	case *ECond:
+		exprIdents(x.C, out)
+		exprIdents(x.A, out)
+		exprIdents(x.B, out)
+	}
 }
 
 // loopEnv: the environment in which the loop invariants of frame fr are evaluated.
@@ -96,11 +202,11 @@ func (ex *Exec) enterBlock(st *State) bool {
 		lc := fr.loops[len(fr.loops)-1]
 		for _, inv := range spec.Invariants {
 			g := ex.evalBool(st, inv.E, ex.loopEnv(st, fr, lc), inv)
-			ex.oblige(st, "loop.preserve", fmt.Sprintf("%s.preserve:%s", ex.loopLabel(st, fr, li.ordinal), inv.Label), g, fr.block.Instrs[0].Pos(), inv.Src)
+			ex.oblige(st, "loop.preserve", fmt.Sprintf("%s.preserve:%s", ex.loopLabel(st, fr, ex.specOrdinal(fr, li)), inv.Label), g, fr.block.Instrs[0].Pos(), inv.Src)
 		}
 		if spec.Decreases != nil {
 			m1 := ex.evalTerm(st, spec.Decreases.E, ex.loopEnv(st, fr, lc), spec.Decreases)
-			ex.oblige(st, "decreases", fmt.Sprintf("%s.decreases", ex.loopLabel(st, fr, li.ordinal)), And(Le(IntLit(0), lc.measure0), Lt(m1, lc.measure0)), fr.block.Instrs[0].Pos(), spec.Decreases.Src)
+			ex.oblige(st, "decreases", fmt.Sprintf("%s.decreases", ex.loopLabel(st, fr, ex.specOrdinal(fr, li))), And(Le(IntLit(0), lc.measure0), Lt(m1, lc.measure0)), fr.block.Instrs[0].Pos(), spec.Decreases.Src)
 		}
 		return false
 	}
@@ -108,7 +214,7 @@ func (ex *Exec) enterBlock(st *State) bool {
 	lc := &loopCtx{head: fr.block, info: li, spec: spec, ordinal: li.ordinal}
 	for _, inv := range spec.Invariants {
 		g := ex.evalBool(st, inv.E, ex.loopEnv(st, fr, lc), inv)
-		ex.oblige(st, "loop.entry", fmt.Sprintf("%s.entry:%s", ex.loopLabel(st, fr, li.ordinal), inv.Label), g, fr.block.Instrs[0].Pos(), inv.Src)
+		ex.oblige(st, "loop.entry", fmt.Sprintf("%s.entry:%s", ex.loopLabel(st, fr, ex.specOrdinal(fr, li)), inv.Label), g, fr.block.Instrs[0].Pos(), inv.Src)
 	}
 	ex.havocLoop(st, fr, li)
 	for _, inv := range spec.Invariants {
